@@ -27,6 +27,10 @@ pub fn drive(vectors: &str, out: &str, thorough: bool, seed: u64) {
       // has the same number in most grammars), so a rule applied to a file of the wrong language shows up as a finding
       let pat = if r["id"] == "r2" { "foo" } else { "foo($A)" };
       let mut rule = json!({"id": r["id"], "language": r["lang"], "severity": r["sev"], "message": "m", "rule": {"pattern": pat}});
+      // in every other project the first rule offers a fix: whether a finding counts for the exit status has nothing to do with it
+      if r["id"] == "r1" && i % 2 == 1 {
+        rule["fix"] = json!("bar($A)");
+      }
       if !r["files"].as_array().unwrap().is_empty() {
         rule["files"] = r["files"].clone();
       }
